@@ -154,3 +154,7 @@ def run(tier):
     rep.assumptions += ["score tables are read through the public score method (instance-level wrapper)",
                         "float scores of CUR/feature PCov-FPS are quantised to 1e-6/1e-4 with a two-unit tie tolerance"]
     return rep.finish()
+
+
+def replay(path):
+    return core.replay_recorded(path, "trace/TraceGreedy.tla", strip)
